@@ -202,7 +202,23 @@ def to_term(v: Any) -> T.Term:
         return ("class", v.qualname)
     if hasattr(v, "row_frame"):
         return ("rowiter", v.row_frame.ctx())
+    if isinstance(v, Columns):
+        n = v.names()
+        return ("columns", v.frame.base, tuple(n) if n is not None else None)
     return T.opaque(f"value {type(v).__name__}")
+
+
+class Columns:
+    """df.columns"""
+
+    def __init__(self, frame: Frame):
+        self.frame = frame
+
+    def names(self):
+        return self.frame.colnames()
+
+    def __repr__(self):
+        return f"Columns<{self.frame!r}>"
 
 
 class PyTuple:
